@@ -456,6 +456,13 @@ func (b *c07Base) emit(g *G, tag string, r [3][]byte, tags ...string) {
 		// new_session_created and bad_server_salt): still nothing may be stored
 		g.Emit(c07Op(tag+"+after", &b.c.D, &b.c.S.Key.PublicKey, p, q, r), append(append([]string{}, tags...), "aftermath")...)
 	}
+	// ... and what those frames do LATER: the first three faults of every class of a run are also run with the store and
+	// the client looked at 1.6 s after the frames (seed C07-m18: the reading routine offers a frame of the exchange for a
+	// second, then treats it like any other message - the unconfirmed key is saved a second after the error was returned)
+	if cls := strings.SplitN(tag, ":", 2)[0]; tag != "none" && !consistent && c07LateCount[cls] < 1 && len(c07LateCount) < g.N(6, 40) {
+		c07LateCount[cls]++
+		g.Emit(c07Op(tag+"+afterlate", &b.c.D, &b.c.S.Key.PublicKey, p, q, r), append(append([]string{}, tags...), "aftermath", "aftermath-late")...)
+	}
 }
 
 // rewrap: reply 2 with the given inner data (correct SHA-1, correct keys).
@@ -496,6 +503,9 @@ func (b *c07Base) offering(fps ...uint64) [3][]byte {
 
 // c07AfterCount: per class of fault, how many operations of this run were generated so far
 var c07AfterCount = map[string]int{}
+
+// c07LateCount: per class of fault, how many +afterlate operations were generated
+var c07LateCount = map[string]int{}
 
 // c07Pool: the server keys of this run, used in turn (consecutive exchanges never use the same key)
 var (
@@ -906,6 +916,17 @@ func c07GenRound(g *G, r *Rand, key *rsa.PrivateKey, round int) {
 			rr = b.h.R
 			rr[i] = hsRpcError(400, "AUTH_KEY_INVALID")
 			b.emit(g, fmt.Sprintf("kind%d:rpc_error", i+1), rr, "kind", "rpc_error")
+			// the rpc_errors the client HANDLES instead of returning when they answer an ordinary request (D34: a migration
+			// started from inside the exchange waited for the lock its own CreateConnection holds - for ever)
+			for _, e := range []struct {
+				code int32
+				text string
+			}{{303, "PHONE_MIGRATE_2"}, {303, "PHONE_MIGRATE_5"}, {303, "NETWORK_MIGRATE_1"}, {303, "PHONE_MIGRATE_77"}, {303, "PHONE_MIGRATE_X"}, {420, "FLOOD_WAIT_3"}} {
+				b = nb()
+				rr = b.h.R
+				rr[i] = hsRpcError(e.code, e.text)
+				b.emit(g, fmt.Sprintf("kind%d:rpc_error:%s", i+1, e.text), rr, "kind", "rpc_error", "rpc_error-handled")
+			}
 			// the pseudo-objects of the TL layer: null, boolTrue
 			b = nb()
 			rr = b.h.R
@@ -966,7 +987,23 @@ func c07Exec(op []string) string {
 		return "bad-op"
 	}
 	// a tag ending in "+after": the server keeps talking after the client abandoned the exchange
-	hsAftermath = strings.HasSuffix(op[1], "+after")
+	hsAftermath = strings.HasSuffix(op[1], "+after") || strings.HasSuffix(op[1], "+afterlate")
+	hsAftermathLate = strings.HasSuffix(op[1], "+afterlate")
+	if hsAftermathLate {
+		// the class of the fault ends in the number of the reply that carries it ("kind2", "nonce1", …): the extra frame
+		// goes out right behind THAT reply, so the exchange itself ends as without it
+		cls := strings.SplitN(op[1], ":", 2)[0]
+		switch pre := strings.SplitN(cls, ".", 2)[0]; {
+		case pre == "resPQ":
+			hsBurstBehind = 1
+		case pre == "dhOk" || pre == "inner":
+			hsBurstBehind = 2
+		case pre == "dhGen":
+			hsBurstBehind = 3
+		case strings.HasPrefix(pre, "kind") && len(pre) == 5 && pre[4] >= '1' && pre[4] <= '3':
+			hsBurstBehind = int(pre[4] - '0')
+		}
+	}
 	// "+req" / "+retry": the application keeps using the object after the exchange was abandoned
 	after := ""
 	for _, m := range []string{"req", "retry"} {
@@ -976,6 +1013,8 @@ func c07Exec(op []string) string {
 	}
 	run := hsExchangePlan(&hsPlan{StoreMode: "notfound", D: &c.D, Pub: &c.Pub, Replies: c.R, After: after})
 	hsAftermath = false
+	hsAftermathLate = false
+	hsBurstBehind = 0
 	c07Last = []*hsRun{run}
 	return hsResultLine(run)
 }
